@@ -269,7 +269,18 @@ func judge(t world.TB, f *gen.Func, u refmodel.Update, o outcome) {
 	namesFlag := u.DeleteElements.IsValid() && !u.DeleteElements.Elem().FieldByName(f.WriteCheck).IsNil()
 	// (a combined delete+partial re-creates the element it deleted; whether a remote write may
 	// create elements is left open by the statement, so its verdict is not fixed here)
-	if u.HasFilter() && !(u.Delete && u.Partial) && any && onlyChangeable && allExist && !namesFlag && !o.accepted {
+	// (a partial write that mixes items with and without identifiers is a sender's slip: what the
+	// identifier-less item is to be applied to is not defined, so its verdict is not fixed either)
+	keyed, idless := 0, 0
+	for _, it := range u.Items {
+		if _, ok := gen.KeyOf(f, it); ok {
+			keyed++
+		} else {
+			idless++
+		}
+	}
+	mixed := keyed > 0 && idless > 0
+	if u.HasFilter() && !(u.Delete && u.Partial) && !mixed && any && onlyChangeable && allExist && !namesFlag && !o.accepted {
 		world.Fail(t, "C04/changeable-write-rejected/"+shape, "P7: the write addresses only existing changeable elements but was rejected%s", desc())
 	}
 }
@@ -296,7 +307,7 @@ func addrPattern(a []bool) string {
 
 // genCase draws the existing list and a write of the given shape.
 func genCase(t *rapid.T, f *gen.Func, shape string) ([]reflect.Value, refmodel.Update) {
-	o := gen.Opt{Dense: true}
+	o := gen.Opt{Dense: true, MixedIDs: true}
 	var init []reflect.Value
 	n := rapid.IntRange(1, 4).Draw(t, "n")
 	seen := map[uint64]bool{}
